@@ -52,6 +52,7 @@ type SolverStats struct {
 	Unknown  int64
 	Errors   int64
 	Restarts int64
+	Retries  int64
 	WallNS   int64
 }
 
@@ -294,6 +295,94 @@ func (s *Solver) dumpQuery(conj []*Term) {
 	os.WriteFile(fmt.Sprintf("%s/q%d.smt2", dumpDir, n), []byte(sb.String()), 0o644)
 }
 
+// standalone renders the query as a self-contained SMT-LIB2 script.
+func (s *Solver) standalone(conj []*Term, need map[int32]bool) (string, []string) {
+	saveDef, saveDecl, saveUF := s.defined, s.declared, s.declUF
+	s.defined, s.declared, s.declUF = map[int32]bool{}, map[string]bool{}, map[string]bool{}
+	var sb strings.Builder
+	sb.WriteString("(set-option :produce-models true)\n(set-logic ALL)\n")
+	for _, c := range conj {
+		s.define(c, &sb)
+	}
+	for _, c := range conj {
+		fmt.Fprintf(&sb, "(assert %s)\n", ref(c))
+	}
+	sb.WriteString("(check-sat)\n")
+	var names []string
+	for _, v := range s.ts.vars {
+		if need[v.id] && s.declared[v.name] {
+			names = append(names, smtName(v.name))
+		}
+	}
+	for id := range s.defined {
+		_ = id
+	}
+	s.defined, s.declared, s.declUF = saveDef, saveDecl, saveUF
+	return sb.String(), names
+}
+
+// oneShot runs the query in fresh solver processes (z3 5.1.0, then cvc5).
+func (s *Solver) oneShot(conj []*Term, need map[int32]bool) (Verdict, Model) {
+	atomic.AddInt64(&s.stats.Retries, 1)
+	txt, names := s.standalone(conj, need)
+	// uninterpreted applications cannot be read back this way: keep unknown for models
+	hasUF := false
+	for _, c := range conj {
+		if c.multi && containsUF(c, map[int32]bool{}) {
+			hasUF = true
+			break
+		}
+	}
+	f, err := os.CreateTemp("", "gosym-q*.smt2")
+	if err != nil {
+		return Unknown, nil
+	}
+	defer os.Remove(f.Name())
+	f.WriteString(txt)
+	f.Close()
+	sec := s.timeoutMS/1000 + 1
+	for _, argv := range [][]string{{"z3-new", fmt.Sprintf("-T:%d", sec), f.Name()}, {"cvc5", fmt.Sprintf("--tlimit=%d", s.timeoutMS), f.Name()}} {
+		out, _ := exec.Command(argv[0], argv[1:]...).Output()
+		first := strings.TrimSpace(strings.SplitN(string(out), "\n", 2)[0])
+		switch first {
+		case "unsat":
+			return Unsat, nil
+		case "sat":
+			if hasUF {
+				continue
+			}
+			// second run with get-value
+			if len(names) == 0 {
+				return Sat, Model{}
+			}
+			g, _ := os.CreateTemp("", "gosym-g*.smt2")
+			g.WriteString(txt + "(get-value (" + strings.Join(names, " ") + "))\n")
+			g.Close()
+			argv2 := append(append([]string{}, argv[:len(argv)-1]...), g.Name())
+			out2, _ := exec.Command(argv2[0], argv2[1:]...).Output()
+			os.Remove(g.Name())
+			parts := strings.SplitN(string(out2), "\n", 2)
+			if len(parts) == 2 && strings.TrimSpace(parts[0]) == "sat" && !strings.Contains(parts[1], "(error") {
+				m := Model{}
+				parseValues(parts[1], m)
+				return Sat, m
+			}
+		}
+	}
+	return Unknown, nil
+}
+
+func containsUF(t *Term, seen map[int32]bool) bool {
+	if t == nil || seen[t.id] || !t.multi {
+		return false
+	}
+	seen[t.id] = true
+	if t.op == opUF {
+		return true
+	}
+	return containsUF(t.a, seen) || containsUF(t.b, seen) || containsUF(t.d, seen)
+}
+
 type Verdict int
 
 const (
@@ -328,10 +417,18 @@ func (s *Solver) CheckSet(conj []*Term, need map[int32]bool) (Verdict, Model) {
 	s.send(sb.String())
 	reply, ok := s.readReply(time.Duration(s.timeoutMS)*time.Millisecond*2 + 5*time.Second)
 	if !ok {
-		atomic.AddInt64(&s.stats.Unknown, 1)
 		s.dead = true
 		s.restart()
-		return Unknown, nil
+		v, m := s.oneShot(conj, need)
+		switch v {
+		case Sat:
+			atomic.AddInt64(&s.stats.Sat, 1)
+		case Unsat:
+			atomic.AddInt64(&s.stats.Unsat, 1)
+		default:
+			atomic.AddInt64(&s.stats.Unknown, 1)
+		}
+		return v, m
 	}
 	reply = strings.TrimSpace(reply)
 	var v Verdict
@@ -358,6 +455,10 @@ func (s *Solver) CheckSet(conj []*Term, need map[int32]bool) (Verdict, Model) {
 		}
 	}
 	s.send("(pop 1)\n")
+	if v == Unknown {
+		// portfolio fallback: the same query, stand-alone, in a fresh process
+		v, m = s.oneShot(conj, need)
+	}
 	if v == Unknown && dumpDir != "" {
 		s.dumpQuery(conj)
 	}
